@@ -228,6 +228,20 @@ theorem log_exactly_once (sort : List Driver → List Driver) (p : Nat) (hp : p 
     obtain ⟨n1, _, n3, _, _⟩ := hnone hs
     exact ⟨n1, n3⟩
 
+/-- **link_moment** — "that moment": the terminal becomes the sink right after the status line of
+the driver whose arrival completes the (first console, first TTY) pair — `linkCount` drivers into
+the probe order, whichever of the two kinds that driver is — so the bytes subject to the
+early-buffer capacity are exactly the output before bring-up plus the complete output of those
+drivers, and nothing logged later passes through the buffer. -/
+theorem link_moment (sort : List Driver → List Driver) (p : Nat) (hp : p < N)
+    (before after : List (List UInt8)) (regs : List Driver) :
+    (bringUp sort p before regs after).linkedAt =
+      (linkCount (sort regs) false false).map fun j =>
+        (before.flatten ++ (((sort regs).take j).map driverLog).flatten).length := by
+  rw [bringUp_linkedAt sort p hp before regs after]
+  unfold linkMoment
+  cases linkCount (sort regs) false false <;> simp
+
 /-- the detection-order constants of the compiled code are ordered as their names say and fit an int8 -/
 theorem detect_order_constants :
     Firefly.Gen.C16.detectOrderEarly < Firefly.Gen.C16.detectOrderBeforeACPI ∧
